@@ -191,7 +191,7 @@ theorem lt8_iff (bs : List Bool) : lt8 bs = true ↔ bs.length < 8 := by
 
 /-- at a symbol boundary with only padding left, the tail loop emits nothing more -/
 theorem tailLoop_pad {T : Tables} (ok : TablesOk T) (f k : Nat) (hk : k < 8) (out : List Nat) :
-    tailLoop T f [] (ones k) out = .ok out := by
+    tailLoop T f [] (ones k) out = .ok ([], ones k, out) := by
   cases f with
   | zero => rfl
   | succ f =>
@@ -224,7 +224,7 @@ theorem tailLoop_canon {T : Tables} (ok : TablesOk T) (k : Nat) (hk : k < 8) :
     ∀ (syms : List Nat) (f s : Nat) (acc r : List Bool) (out : List Nat),
     (∀ x ∈ syms, x < T.codes.length) → (hs : s < T.codes.length) → acc ++ r = T.codes[s] → r ≠ [] →
     (r ++ encBits T syms ++ ones k).length < 8 → (r ++ encBits T syms ++ ones k).length < f →
-    tailLoop T f acc (r ++ encBits T syms ++ ones k) out = .ok (out ++ s :: syms) := by
+    tailLoop T f acc (r ++ encBits T syms ++ ones k) out = .ok ([], ones k, out ++ s :: syms) := by
   intro syms
   induction syms with
   | nil =>
@@ -269,14 +269,19 @@ theorem tailLoop_canon {T : Tables} (ok : TablesOk T) (k : Nat) (hk : k < 8) :
 def finish (T : Tables) (f : Nat) (acc bs : List Bool) (out : List Nat) : Except HErr (List Nat) :=
   match mainLoop T 0 f acc bs out with
   | .error e => .error e
-  | .ok (a, p, o) => tailLoop T 8 a p o
+  | .ok (a, p, o) => finalize (tailLoop T 8 a p o)
+
+theorem finalize_pad (k : Nat) (hk : k < 8) (o : List Nat) : finalize (.ok ([], ones k, o)) = .ok o := by
+  have h1 : ¬ (([] : List Bool).length + (ones k).length > 7) := by rw [length_ones]; simp; omega
+  have h2 : (ones k).all id = true := by simp [ones]
+  simp only [finalize, h1, if_false, h2, if_true]
 
 theorem finish_pad {T : Tables} (ok : TablesOk T) (f k : Nat) (hk : k < 8) (out : List Nat) :
     finish T f [] (ones k) out = .ok out := by
   have hl : lt8 (ones k) = true := (lt8_iff _).mpr (by rw [length_ones]; omega)
   cases f with
-  | zero => simp [finish, mainLoop, tailLoop_pad ok 8 k hk]
-  | succ f => simp [finish, mainLoop, hl, tailLoop_pad ok 8 k hk]
+  | zero => simp [finish, mainLoop, tailLoop_pad ok 8 k hk, finalize_pad k hk]
+  | succ f => simp [finish, mainLoop, hl, tailLoop_pad ok 8 k hk, finalize_pad k hk]
 
 theorem finish_canon {T : Tables} (ok : TablesOk T) (k : Nat) (hk : k < 8) :
     ∀ (f : Nat) (syms : List Nat) (s : Nat) (acc r : List Bool) (out : List Nat),
@@ -292,7 +297,7 @@ theorem finish_canon {T : Tables} (ok : TablesOk T) (k : Nat) (hk : k < 8) :
     by_cases hl : lt8 (r ++ encBits T syms ++ ones k) = true
     · have hl' := (lt8_iff _).mp hl
       simp only [finish, mainLoop, hl, if_true]
-      exact tailLoop_canon ok k hk syms 8 s acc r out hall hs hc hr hl' (by omega)
+      rw [tailLoop_canon ok k hk syms 8 s acc r out hall hs hc hr hl' (by omega), finalize_pad k hk]
     · have hl' : ¬ (r ++ encBits T syms ++ ones k).length < 8 := fun h => hl ((lt8_iff _).mpr h)
       simp only [finish, mainLoop, hl, Bool.false_eq_true, if_false]
       by_cases hr8 : r.length ≤ 8
@@ -405,5 +410,259 @@ theorem huffEncode_length {T : Tables} (ok : TablesOk T) (s : List Nat) :
   rw [hb, List.length_append, length_ones, hl] at h
   unfold huffEncodeLength
   omega
+
+/-! ### soundness of the (fixed) decoder: whatever it accepts is a canonical stream -/
+
+theorem findLeaf_some (n : Nat) (path : List Bool) : ∀ (cs : List (List Bool)) (i j l : Nat),
+    findLeaf n path cs i = some (j, l) →
+    ∃ s, ∃ (hs : s < cs.length), j = i + s ∧ isLeafFor n path cs[s] = true ∧ l = cs[s].length - n := by
+  intro cs
+  induction cs with
+  | nil => intro i j l h; simp [findLeaf] at h
+  | cons c cs ih =>
+    intro i j l h
+    unfold findLeaf at h
+    by_cases hc : isLeafFor n path c = true
+    · simp only [hc, if_true, Option.some.injEq, Prod.mk.injEq] at h
+      exact ⟨0, by simp, by omega, by simpa using hc, by simp [h.2]⟩
+    · simp only [hc] at h
+      obtain ⟨s, hs, h1, h2, h3⟩ := ih (i + 1) j l h
+      exact ⟨s + 1, by simpa using hs, by omega, by simpa using h2, by simpa using h3⟩
+
+theorem look_leaf_sound (T : Tables) (acc idx : List Bool) (s l : Nat) (h : look T acc idx = .leaf s l) :
+    ∃ (hs : s < T.codes.length), ∃ r, acc ++ r = T.codes[s] ∧ r.length = l ∧ r <+: idx ∧ 0 < l := by
+  unfold look at h
+  cases hf : findLeaf acc.length (acc ++ idx) T.codes 0 with
+  | none => rw [hf] at h; simp only [] at h; split at h <;> cases h
+  | some p =>
+    obtain ⟨j, l'⟩ := p
+    rw [hf] at h
+    simp only [Look.leaf.injEq] at h
+    obtain ⟨rfl, rfl⟩ := h
+    obtain ⟨s, hs, hj, hleaf, hl⟩ := findLeaf_some _ _ _ _ _ _ hf
+    have hjs : j = s := by omega
+    subst hjs
+    obtain ⟨hpre, h1, h2⟩ := (isLeafFor_iff _ _ _).mp hleaf
+    have hacc : acc <+: T.codes[j] :=
+      List.prefix_of_prefix_length_le (List.prefix_append acc idx) hpre (by omega)
+    obtain ⟨r, hr⟩ := hacc
+    refine ⟨hs, r, hr, ?_, ?_, by omega⟩
+    · have := congrArg List.length hr
+      rw [List.length_append] at this; omega
+    · rw [← hr] at hpre
+      exact (List.prefix_append_right_inj acc).mp hpre
+
+theorem encBits_append (T : Tables) (a b : List Nat) : encBits T (a ++ b) = encBits T a ++ encBits T b := by
+  induction a with
+  | nil => rfl
+  | cons c a ih => simp [encBits, ih]
+
+/-- state invariant of the walk: the bits handled so far are the codes of the output followed by the
+    path of the current node, which is empty or at least one whole byte long -/
+theorem mainLoop_sound (T : Tables) (m : Nat) : ∀ (f : Nat) (acc bs : List Bool) (out : List Nat)
+    (acc' bs' : List Bool) (out' : List Nat),
+    mainLoop T m f acc bs out = .ok (acc', bs', out') → (acc = [] ∨ 8 ≤ acc.length) →
+    ∃ syms, out' = out ++ syms ∧ acc ++ bs = encBits T syms ++ acc' ++ bs' ∧
+      (∀ x ∈ syms, x < T.codes.length) ∧ (acc' = [] ∨ 8 ≤ acc'.length) := by
+  intro f
+  induction f with
+  | zero =>
+    intro acc bs out acc' bs' out' h hacc
+    simp only [mainLoop, Except.ok.injEq, Prod.mk.injEq] at h
+    obtain ⟨rfl, rfl, rfl⟩ := h
+    exact ⟨[], by simp, by simp [encBits], by simp, hacc⟩
+  | succ f ih =>
+    intro acc bs out acc' bs' out' h hacc
+    rw [mainLoop] at h
+    by_cases hl : lt8 bs = true
+    · simp only [hl, if_true, Except.ok.injEq, Prod.mk.injEq] at h
+      obtain ⟨rfl, rfl, rfl⟩ := h
+      exact ⟨[], by simp, by simp [encBits], by simp, hacc⟩
+    · have hl8 : ¬ bs.length < 8 := fun hh => hl ((lt8_iff _).mpr hh)
+      simp only [hl, Bool.false_eq_true, if_false] at h
+      cases hk : look T acc (bs.take 8) with
+      | nil => rw [hk] at h; cases h
+      | leaf s l =>
+        rw [hk] at h
+        simp only [] at h
+        split at h
+        · cases h
+        · obtain ⟨hs, r, hr, hrl, hpre, hlpos⟩ := look_leaf_sound T _ _ _ _ hk
+          obtain ⟨syms, h1, h2, h3, h4⟩ := ih [] (bs.drop l) (out ++ [s]) acc' bs' out' h (Or.inl rfl)
+          have hrbs : r <+: bs := hpre.trans (List.take_prefix 8 bs)
+          obtain ⟨t, ht⟩ := hrbs
+          have hdrop : bs.drop l = t := by rw [← ht, ← hrl, List.drop_left]
+          refine ⟨s :: syms, by simp [h1], ?_, ?_, h4⟩
+          · rw [← ht, ← List.append_assoc, hr]
+            simp only [encBits, symCode_eq T s hs, List.append_assoc]
+            rw [← hdrop]
+            simpa using h2
+          · intro x hx
+            rcases List.mem_cons.mp hx with rfl | hx
+            · exact hs
+            · exact h3 x hx
+      | internal =>
+        rw [hk] at h
+        simp only [] at h
+        have hlen : 8 ≤ (acc ++ bs.take 8).length := by
+          rw [List.length_append, List.length_take]; omega
+        obtain ⟨syms, h1, h2, h3, h4⟩ := ih _ _ _ _ _ _ h (Or.inr hlen)
+        refine ⟨syms, h1, ?_, h3, h4⟩
+        rw [← h2, List.append_assoc, List.take_append_drop]
+
+theorem tailLoop_sound (T : Tables) : ∀ (f : Nat) (acc pend : List Bool) (out : List Nat)
+    (acc' pend' : List Bool) (out' : List Nat),
+    tailLoop T f acc pend out = .ok (acc', pend', out') →
+    ∃ syms, out' = out ++ syms ∧ acc ++ pend = encBits T syms ++ acc' ++ pend' ∧
+      (∀ x ∈ syms, x < T.codes.length) ∧ (acc' = acc ∨ acc' = []) := by
+  intro f
+  induction f with
+  | zero =>
+    intro acc pend out acc' pend' out' h
+    simp only [tailLoop, Except.ok.injEq, Prod.mk.injEq] at h
+    obtain ⟨rfl, rfl, rfl⟩ := h
+    exact ⟨[], by simp, by simp [encBits], by simp, Or.inl rfl⟩
+  | succ f ih =>
+    intro acc pend out acc' pend' out' h
+    rw [tailLoop] at h
+    have triv : ∀ (hh : (Except.ok (acc, pend, out) : Except HErr _) = .ok (acc', pend', out')),
+        ∃ syms, out' = out ++ syms ∧ acc ++ pend = encBits T syms ++ acc' ++ pend' ∧
+          (∀ x ∈ syms, x < T.codes.length) ∧ (acc' = acc ∨ acc' = []) := by
+      intro hh
+      simp only [Except.ok.injEq, Prod.mk.injEq] at hh
+      obtain ⟨rfl, rfl, rfl⟩ := hh
+      exact ⟨[], by simp, by simp [encBits], by simp, Or.inl rfl⟩
+    by_cases h0 : pend.length = 0
+    · simp only [if_pos h0] at h; exact triv h
+    · simp only [if_neg h0] at h
+      cases hk : look T acc (pend ++ List.replicate (8 - pend.length) false) with
+      | nil => rw [hk] at h; cases h
+      | internal => rw [hk] at h; exact triv h
+      | leaf s l =>
+        rw [hk] at h
+        simp only [] at h
+        by_cases hgt : l > pend.length
+        · simp only [if_pos hgt] at h; exact triv h
+        · simp only [if_neg hgt] at h
+          obtain ⟨hs, r, hr, hrl, hpre, hlpos⟩ := look_leaf_sound T _ _ _ _ hk
+          obtain ⟨syms, h1, h2, h3, h4⟩ := ih [] (pend.drop l) (out ++ [s]) acc' pend' out' h
+          have hrp : r <+: pend :=
+            List.prefix_of_prefix_length_le hpre (List.prefix_append pend _) (by omega)
+          obtain ⟨t, ht⟩ := hrp
+          have hdrop : pend.drop l = t := by rw [← ht, ← hrl, List.drop_left]
+          refine ⟨s :: syms, by simp [h1], ?_, ?_, ?_⟩
+          · rw [← ht, ← List.append_assoc, hr]
+            simp only [encBits, symCode_eq T s hs, List.append_assoc]
+            rw [← hdrop]
+            simpa using h2
+          · intro x hx
+            rcases List.mem_cons.mp hx with rfl | hx
+            · exact hs
+            · exact h3 x hx
+          · rcases h4 with h4 | h4 <;> exact Or.inr h4
+
+/-- **soundness**: what the fixed `huffmanDecode` accepts is canonical (codes of the result, < 8 one-bits) -/
+theorem huffman_sound (T : Tables) (m : Nat) (v res : List Nat) (h : huffmanDecode T m v = .ok res) :
+    ∃ k, k < 8 ∧ bytesBits v = encBits T res ++ ones k ∧ ∀ x ∈ res, x < T.codes.length := by
+  unfold huffmanDecode at h
+  simp only [] at h
+  cases hm : mainLoop T m ((bytesBits v).length + 1) [] (bytesBits v) [] with
+  | error e => rw [hm] at h; cases h
+  | ok p1 =>
+    obtain ⟨a1, p1, o1⟩ := p1
+    rw [hm] at h
+    simp only [] at h
+    obtain ⟨s1, ho1, hb1, hv1, ha1⟩ := mainLoop_sound T m _ _ _ _ _ _ _ hm (Or.inl rfl)
+    cases ht : tailLoop T 8 a1 p1 o1 with
+    | error e => rw [ht] at h; cases h
+    | ok p2 =>
+      obtain ⟨a2, p2, o2⟩ := p2
+      rw [ht] at h
+      obtain ⟨s2, ho2, hb2, hv2, ha2⟩ := tailLoop_sound T _ _ _ _ _ _ _ ht
+      simp only [finalize] at h
+      split at h
+      · cases h
+      · rename_i hlen
+        split at h
+        · rename_i hall
+          simp only [Except.ok.injEq] at h
+          have ha2nil : a2 = [] := by
+            rcases ha2 with e | e
+            · rcases ha1 with e1 | e1
+              · rw [e, e1]
+              · rw [e] at hlen; omega
+            · exact e
+          subst ha2nil
+          have hp2 : p2 = ones p2.length := by
+            unfold ones
+            apply List.eq_replicate_iff.mpr
+            exact ⟨rfl, fun b hb => by simpa using List.all_eq_true.mp hall b hb⟩
+          refine ⟨p2.length, by simp at hlen; omega, ?_, ?_⟩
+          · simp only [List.nil_append, List.append_nil] at hb1 hb2
+            rw [hb1, List.append_assoc, hb2, ← h, ho2, ho1]
+            simp only [List.nil_append, encBits_append, List.append_assoc]
+            rw [← hp2]
+          · rw [← h, ho2, ho1]
+            intro x hx
+            simp only [List.nil_append, List.mem_append] at hx
+            rcases hx with hx | hx
+            · exact hv1 x hx
+            · exact hv2 x hx
+        · cases h
+
+/-- with no string-length limit the only Huffman error is ErrInvalidHuffman -/
+theorem mainLoop_err0 (T : Tables) : ∀ (f : Nat) (acc bs : List Bool) (out : List Nat) (e : HErr),
+    mainLoop T 0 f acc bs out = .error e → e = .invalid := by
+  intro f
+  induction f with
+  | zero => intro acc bs out e h; simp [mainLoop] at h
+  | succ f ih =>
+    intro acc bs out e h
+    rw [mainLoop] at h
+    split at h
+    · cases h
+    · split at h
+      · cases h; rfl
+      · simp only [ne_eq, not_true_eq_false, false_and, if_false] at h
+        exact ih _ _ _ _ h
+      · exact ih _ _ _ _ h
+
+theorem tailLoop_err (T : Tables) : ∀ (f : Nat) (acc pend : List Bool) (out : List Nat) (e : HErr),
+    tailLoop T f acc pend out = .error e → e = .invalid := by
+  intro f
+  induction f with
+  | zero => intro acc pend out e h; simp [tailLoop] at h
+  | succ f ih =>
+    intro acc pend out e h
+    rw [tailLoop] at h
+    split at h
+    · cases h
+    · split at h
+      · cases h; rfl
+      · cases h
+      · split at h
+        · cases h
+        · exact ih _ _ _ _ h
+
+theorem huffman_err0 (T : Tables) (v : List Nat) (e : HErr) (h : huffmanDecode T 0 v = .error e) : e = .invalid := by
+  unfold huffmanDecode at h
+  simp only [] at h
+  cases hm : mainLoop T 0 ((bytesBits v).length + 1) [] (bytesBits v) [] with
+  | error e' => rw [hm] at h; cases h; exact mainLoop_err0 T _ _ _ _ _ hm
+  | ok p1 =>
+    obtain ⟨a1, p1, o1⟩ := p1
+    rw [hm] at h
+    simp only [] at h
+    cases ht : tailLoop T 8 a1 p1 o1 with
+    | error e' => rw [ht] at h; simp only [finalize] at h; cases h; exact tailLoop_err T _ _ _ _ _ ht
+    | ok p2 =>
+      obtain ⟨a2, p2, o2⟩ := p2
+      rw [ht] at h
+      simp only [finalize] at h
+      split at h
+      · cases h; rfl
+      · split at h
+        · cases h
+        · cases h; rfl
 
 end BfeVerif.C30
